@@ -73,7 +73,7 @@ def gen(rng, tier, focus):
                 if i == 0 and qn == 1:
                     txt, t, gb = b"a = $1 & b = $2", ("A", [("E", b"a", b"", 1), ("E", b"b", b"", 2)]), []
                 m = max_ph(t)
-                mode = rng.choice(["direct", "prepared"])
+                mode = rng.choice(["direct", "prepared", "direct", "prepared", "tx"])
                 k = rng.randrange(1, 6) if mode == "prepared" else rng.randrange(1, 3)
                 argsets = []
                 for _ in range(k):
@@ -141,7 +141,7 @@ def run_sql(rep, scratch, rng, tier, focus):
         seen.add(cls)
         rep.violation("correspondence",
                       "database/sql %s path, DSN options %s: %s with %d argument(s), execution #%d -> implementation %s, model %s" % (
-                          "Prepare+Stmt.Query" if mode == "prepared" else "DB.Query", opts, core.show_bytes(txt)[:120], len(a), j + 1, str(x)[:200], str(y)[:200]),
+                          {"prepared": "Prepare+Stmt.Query", "tx": "Begin+Tx.Query+Commit"}.get(mode, "DB.Query"), opts, core.show_bytes(txt)[:120], len(a), j + 1, str(x)[:200], str(y)[:200]),
                       {"lines": ds.lines() + ["SQLOPEN h %s %s" % (ds.did, opts), "SQLQ q h %s %s 1" % (mode, core.enc_str(txt)), enc_args(a)],
                        "query_text": core.show_bytes(txt), "args": [str(v[1]) for v in a], "options": opts, "mode": mode, "impl": x, "model": y})
     stats["failures"] = len(bad)
